@@ -1293,7 +1293,7 @@ def compare(rq, impl, model, ctx):
 # ------------------------------------------------------------------------------------------------
 
 COVER_OPS = ("c20.timedisp", "c20.redmass", "c20.fmtstr", "c20.warn", "c20.fexists", "c20.vecout", "c20.matout", "c20.dpout",
-             "c20.save1", "c20.save2", "c20.save2d0")
+             "c20.save1", "c20.save2", "c20.save2d0", "c20.printbox", "c20.progbar")
 TIME_RATIOS = [Fraction(31557600), Fraction(604800), Fraction(86400), Fraction(3600), Fraction(60), Fraction(1), Fraction(1, 1000)]
 TIME_UNITS = ["y", "w", "d", "h", "m", "s", "ms"]
 TIME_MARGIN_BITS = 44      # a floor argument closer than 2^-44*|seconds| (in seconds) to an integer is a knife-edge of the double arithmetic
@@ -1341,6 +1341,43 @@ def time_safe(x):
     i = time_first(comps)
     lim = abs(Fraction(x)) / 2 ** TIME_MARGIN_BITS
     return all(d > lim for d in dist[:i + 3])
+
+
+def progbar_pct(p):
+    """(digits, exact value of 100p scaled to the rounding position) of the percentage Print_Progress_Bar shows"""
+    d = 1 if (p < 0.1 or p == 1.0) else 2
+    N = Fraction(p) * 100
+    if N == 0:
+        return d, None
+    e = 0
+    while Fraction(10) ** (e + 1) <= N:
+        e += 1
+    while Fraction(10) ** e > N:
+        e -= 1
+    return d, N * Fraction(10) ** (d - 1 - e)
+
+
+def progbar_safe(p, tm):
+    """the double arithmetic of Print_Progress_Bar decides as the exact one: 100*p exact (dyadic p with few bits), the
+    rounding of the percentage at least 2^-30 away from a tie, the percentage in fixed notation, the time field not at
+    a Time_Display knife-edge"""
+    if 0.0 <= p <= 1.0:
+        if Fraction(p).denominator > 2 ** 20:
+            return False
+        if p != 0 and p < 2.0 ** -13:
+            return False
+        d, y = progbar_pct(p)
+        if y is not None:
+            fr_ = y - (y.numerator // y.denominator)
+            if abs(fr_ - Fraction(1, 2)) < Fraction(1, 2 ** 30):
+                return False
+        if tm > 0.0 and p > 1.0e-3:
+            t = tm if p > 0.9999 else (1.0 - p) * tm / p
+            if t != 0 and not time_safe(t):
+                return False
+            if t >= 2.0 ** 31 * 31557600.0:
+                return False
+    return True
 
 
 TIME_RE = re.compile(r"^\[(0?-?\d+)(y|w|d|h|m|s|ms):(0?-?\d+)(y|w|d|h|m|s|ms):(0?-?\d+)(y|w|d|h|m|s|ms)\]$")
@@ -1440,6 +1477,47 @@ def gen_cover(rng, thorough):
             R.append("c20.warn %d %s %s" % (cond, enhex8(fn), enhex8(msg)))
     for k in ("file", "dir", "missing", "empty"):
         R.append("c20.fexists " + k)
+    # --- Print_Box / Print_Progress_Bar (what they write to std::cout) -----------------------------------------
+    odd_box = ["Purple", "red", ""]
+    ascii_chars = [chr(c) for c in range(32, 127)]
+    box_strs = ["", "x", "libphysica", "two words", "a" * 60, "100% done [x]", "tab\tinside", "\x1b[0m", "m", "\u2588\u2591", "\u00e4\u00f6\u00fc", "\u2554\u2550\u2557"]
+    for k in range(60 * n):
+        if k < len(box_strs):
+            st = box_strs[k]
+        else:
+            st = "".join(rng.choice(ascii_chars) for _ in range(rng.randint(0, 60)))
+        tabs = k % 4
+        rank = 0 if k % 5 != 4 else rng.choice([1, -1, 3])
+        bc = (COLORS + odd_box)[k % (len(COLORS) + len(odd_box))]
+        tc = (COLORS + odd_box)[(k // 3 + 5) % (len(COLORS) + len(odd_box))]
+        R.append("c20.printbox %s %d %d %s %s" % (enhex8(st), tabs, rank, enhex8(bc), enhex8(tc)))
+    for bc in COLORS + odd_box:      # every colour in both roles at least once
+        R.append("c20.printbox %s %d 0 %s %s" % (enhex8(rng.choice(box_strs[:6])), rng.randint(0, 3), enhex8(bc), enhex8("Default")))
+        R.append("c20.printbox %s %d 0 %s %s" % (enhex8(rng.choice(box_strs[:6])), rng.randint(0, 3), enhex8("Default"), enhex8(bc)))
+    pb = []
+    for k in range(80 * n):
+        c = k % 8
+        m = rng.randint(1, 10)
+        if c == 0:
+            p = rng.choice([0.0, 1.0, 0.5, 0.25, 0.125, 0.0078125, 0.0009765625, 0.001953125])
+        elif c == 1:
+            p = rng.choice([-0.25, 1.5, -1.0, 1.0009765625, 2.0])     # outside [0,1]: nothing is printed
+        elif c == 2:
+            p = rng.randint(1, 12) / 1024.0                             # below 1% / just above
+        elif c == 3:
+            p = rng.randint(10, 110) / 1024.0                           # around 10%
+        else:
+            p = rng.randint(0, 2 ** m) / 2.0 ** m
+        L = rng.choice([0, 1, 2, 3, 4, 5, 6, 7, 8, 9, 10, 20, 50, 50, 50, 64, 100, 33]) if k % 3 else 50
+        rank = 0 if k % 7 != 6 else rng.choice([1, 2])
+        tm = 0.0 if k % 2 == 0 else rng.choice([-1.0, rng.uniform(0.01, 10.0), rng.uniform(1.0, 1e4), rng.uniform(1e3, 1e8), float(rng.randint(1, 10 ** 6))])
+        col = (COLORS + ["Purple"])[k % (len(COLORS) + 1)]
+        if not progbar_safe(p, tm):
+            tm = 0.0
+            if not progbar_safe(p, tm):
+                continue
+        pb.append("c20.progbar %s %d %d %s %s" % (hx(p), rank, L, hx(tm), enhex8(col)))
+    R.extend(pb)
     # --- operator<< ------------------------------------------------------------------------------------------------
     for k in range(40 * n):
         nn = rng.choice([0, 1, 2, 3]) if k % 4 == 0 else rng.randint(1, 8)
@@ -1573,6 +1651,49 @@ def compare_cover(op, a, rq, impl, model, ctx):
             out.append(fail("prop", "Reduced_Mass of equal masses is not half the mass", "mu(%r,%r) = %r" % (m1, m2, v)))
         if not close(v, m, m, 4) and not out:
             out.append(fail("prop" if not close(v, m, m, 2 ** 30) else "corr", "Reduced_Mass differs from m1*m2/(m1+m2)", "mu(%r,%r) = %r, exact %r" % (m1, m2, v, _f(m))))
+        return out
+    if op == "c20.printbox":
+        st, tabs, rank, bc, tc = unhex8(a[0]), int(a[1]), int(a[2]), unhex8(a[3]), unhex8(a[4])
+        oi, om = unhex8(ti[0]), unhex8(tm[0])
+        nb = len(st.encode("utf-8"))
+        ctx["nontrivial"].add((op, min(nb, 3), tabs, rank == 0, bc if bc in COLORS else "?", tc if tc in COLORS else "?", nb != len(st)))
+        if rank != 0:
+            if oi != "":
+                out.append(fail("prop", "Print_Box prints nothing on a rank other than 0", "rank %d wrote %r" % (rank, oi)))
+            return out
+        plain = re.sub("\x1b\\[[0-9;]*m", "", oi) if "\x1b" not in st else None
+        if plain is not None and "\n" not in st:
+            lines = plain.split("\n")
+            # three lines, then the newline of the string and the one of std::endl
+            frame_ok = (len(lines) == 5 and lines[3] == "" and lines[4] == ""
+                        and lines[0] == "\t" * tabs + "\u2554" + "\u2550" * (nb + 2) + "\u2557"
+                        and lines[1] == "\t" * tabs + "\u2551 " + st + " \u2551"
+                        and lines[2] == "\t" * tabs + "\u255a" + "\u2550" * (nb + 2) + "\u255d")
+            if not frame_ok:
+                out.append(fail("prop", "Print_Box: the frame is not three lines of width (bytes of the text)+4 around the text", "%r -> %r" % (st, oi)))
+            if nb != len(st):
+                bump(ctx, "printbox:multi-byte text (frame is as wide as the byte count, not the character count)")
+        if oi != om and not out:
+            out.append(fail("corr", "Print_Box differs from the model", "impl %r model %r" % (oi, om)))
+        return out
+    if op == "c20.progbar":
+        p, rank, L, tmv, col = fl(a[0]), int(a[1]), int(a[2]), fl(a[3]), unhex8(a[4])
+        oi, om = unhex8(ti[0]), unhex8(tm[0])
+        inside = rank == 0 and 0.0 <= p <= 1.0
+        ctx["nontrivial"].add((op, inside, min(L, 9), p == 0, p == 1, p < 0.01, p < 0.1, tmv > 0 and p > 1e-3, col if col in COLORS else "?"))
+        if not inside:
+            if oi != "":
+                out.append(fail("prop", "Print_Progress_Bar prints nothing on a rank other than 0 or for progress outside [0,1]", "wrote %r" % oi))
+            return out
+        ncell = oi.count("\u2588") + oi.count("\u2591")
+        if ncell != int(tm[1]):
+            out.append(fail("prop", "Print_Progress_Bar: number of bar cells differs from bar_length minus the cells the percentage replaces",
+                            "progress %r length %d: %d cells, expected %s" % (p, L, ncell, tm[1])))
+        nfull = oi.count("\u2588")
+        if L > 0 and ((p == 0 and nfull != 0) or (p == 1 and oi.count("\u2591") != 0)):
+            out.append(fail("prop", "Print_Progress_Bar: empty bar at 0, full bar at 1", "progress %r -> %r" % (p, oi)))
+        if oi != om and not out:
+            out.append(fail("corr", "Print_Progress_Bar differs from the model", "impl %r model %r" % (oi, om)))
         return out
     if op == "c20.fmtstr":
         s_, col, bold, bg = unhex8(a[0]), unhex8(a[1]), int(a[2]), unhex8(a[4])
